@@ -100,6 +100,12 @@ func (v *VoteDB) UpdateContext(round *big.Int, roundIndex uint32) {
 	if v.round != nil && v.round.Cmp(round) == 0 && v.roundIndex == roundIndex {
 		return
 	}
+	// Never move the voting context backwards: votes for a later round index (or round)
+	// are already recorded, so an earlier context must stay closed for voting. A restart
+	// (or Resume) re-enters the current round at round index 1.
+	if v.round != nil && (v.round.Cmp(round) > 0 || (v.round.Cmp(round) == 0 && v.roundIndex > roundIndex)) {
+		return
+	}
 
 	v.mark = make(map[VoteType]uint8)
 	v.round = round
